@@ -41,14 +41,34 @@ theorem psInv_ok_iff (ps : PS) : PsInv.ok ps ↔ PSok ps := Iff.rfl
     of C01–C05). -/
 def RealGood (b : Board) : Prop := Board.valid b = true
 
-variable (K : Keys) (cs : Eval.CoeffSet Int)
+/-- a component record that agrees with the real one in every field the laws speak about (the
+    pruning predicates and the evaluation are free): `realCompWith K cs`, and `realCompG K cs`
+    (Proofs/SearchRealScore.lean), the same record with the null-move guard. -/
+structure IsReal (K : Keys) (c : Comp PS Pick) : Prop where
+  keys : c.keys = K
+  ttProbe : c.ttProbe = ttProbe
+  ttStore : c.ttStore = ttStore
+  failHigh : c.failHigh = failHigh
+  pickInit : c.pickInit = pickInit
+  pickNext : c.pickNext = pickNext
+  setWeight : c.setWeight = setWeight
+  qMoves : c.qMoves = qMoves
+  nextGen : c.nextGen = nextGen
+
+theorem isReal_realCompWith (K : Keys) (cs : Eval.CoeffSet Int) : IsReal K (realCompWith K cs) :=
+  ⟨rfl, rfl, rfl, rfl, rfl, rfl, rfl, rfl, rfl⟩
+
+variable {K : Keys} {c : Comp PS Pick} (hc : IsReal K c)
+include hc
 
 /-- a hash move the table can answer is one of the 32 768 encodings. -/
-theorem hashOK_lt {b : Board} {hm : Move} (h : HashOK (realCompWith K cs) b hm) : hm < 32768 := by
+theorem hashOK_lt {b : Board} {hm : Move} (h : HashOK c b hm) : hm < 32768 := by
   rcases h with h | ⟨ps, ply, e, hok, hp, he⟩
   · rw [h]; decide
-  · rw [← he]; exact ttProbe_move_lt hok hp
+  · rw [hc.ttProbe] at hp
+    rw [← he]; exact ttProbe_move_lt hok hp
 
+omit hc in
 /-- `pickNext` spelled out. -/
 theorem pickNext_some {ps : PS} {b : Board} {hs : List Search.StackMove} {p : Pick} {m : Move} {p' : Pick}
     (h : pickNext ps b hs p = some (m, p')) :
@@ -63,6 +83,7 @@ theorem pickNext_some {ps : PS} {b : Board} {hs : List Search.StackMove} {p : Pi
     simp only [Option.some.injEq, Prod.mk.injEq] at h
     exact ⟨st', rfl, h.1.symm, h.2.symm⟩
 
+omit hc in
 theorem pickNext_none {ps : PS} {b : Board} {hs : List Search.StackMove} {p : Pick}
     (h : pickNext ps b hs p = none) :
     ∃ st', Picker.next b p.hm (Picker.rankOf ps.ranker b (hstackOf hs)) p.st = (false, st') := by
@@ -76,46 +97,58 @@ theorem pickNext_none {ps : PS} {b : Board} {hs : List Search.StackMove} {p : Pi
 /-- the picker states the skeleton can reach are frames reachable in the sense of
     Proofs/SearchRealPicker.lean (every `Next()` with in-band ranking functions: `rankOf_bands`). -/
 theorem reach_preach {b : Board} {hm : Move} {p : Pick} {ys : List Move}
-    (h : Reach (realCompWith K cs) b hm p ys) : p.hm = hm ∧ PReach b hm p.st ys := by
+    (h : Reach c b hm p ys) : p.hm = hm ∧ PReach b hm p.st ys := by
   induction h with
-  | init => exact ⟨rfl, PReach.init⟩
+  | init => rw [hc.pickInit]; exact ⟨rfl, PReach.init⟩
   | next hr hok hp ih =>
+    rw [hc.pickNext] at hp
     obtain ⟨st', hn, hm', hp'⟩ := pickNext_some hp
     rw [hp', hm']
     rw [ih.1] at hn
     exact ⟨ih.1, PReach.next ih.2 (Proofs.HeurBands.rankOf_bands hok.2 _ _) hn⟩
-  | weight hr ih => exact ⟨ih.1, PReach.weight ih.2⟩
+  | weight hr ih => rw [hc.setWeight]; exact ⟨ih.1, PReach.weight ih.2⟩
 
 /-- **The laws of the search skeleton hold for the real components** on valid boards, under the
-    state invariant `PSok` — for every key table and every coefficient set. -/
-theorem real_laws : Laws (realCompWith K cs) RealGood where
-  undo_make := fun _ _ hg hm => undo_make_gen K hg hm
-  good_make := fun _ _ hg hf hm hs => valid_make_gen K hg hf hm hs
-  undo_null := fun _ hg _ => undo_null_valid K hg
-  good_null := fun _ hg hc => valid_null K hg hc
+    state invariant `PSok` — for every key table and whatever the pruning predicates and the
+    evaluation are. -/
+theorem laws_of_isReal : Laws c RealGood where
+  undo_make := fun _ _ hg hm => by rw [hc.keys]; exact undo_make_gen K hg hm
+  good_make := fun _ _ hg hf hm hs => by rw [hc.keys] at hs ⊢; exact valid_make_gen K hg hf hm hs
+  undo_null := fun _ hg _ => by rw [hc.keys]; exact undo_null_valid K hg
+  good_null := fun _ hg hcx => by rw [hc.keys]; exact valid_null K hg hcx
   pick_mem := fun ps b hs hm p ys m p' hg hh hr hok hp => by
-    obtain ⟨e, hpr⟩ := reach_preach K cs hr
+    obtain ⟨e, hpr⟩ := reach_preach hc hr
+    rw [hc.pickNext] at hp
     obtain ⟨st', hn, hm', _⟩ := pickNext_some hp
     rw [e] at hn
     rw [hm']
-    exact preach_mem hg (hashOK_lt K cs hh) hpr (Proofs.HeurBands.rankOf_bands hok.2 _ _) hn
+    exact preach_mem hg (hashOK_lt hc hh) hpr (Proofs.HeurBands.rankOf_bands hok.2 _ _) hn
   pick_complete := fun ps b hs hm p ys hg hh hr hok hp => by
-    obtain ⟨e, hpr⟩ := reach_preach K cs hr
+    obtain ⟨e, hpr⟩ := reach_preach hc hr
+    rw [hc.pickNext] at hp
     obtain ⟨st', hn⟩ := pickNext_none hp
     rw [e] at hn
-    exact preach_complete hg (hashOK_lt K cs hh) hpr (Proofs.HeurBands.rankOf_bands hok.2 _ _) hn
-  q_mem := fun ps b hs m w _ h => genNoisy_sub_gen (qMoves_mem (ps := ps) (b := b) (hs := hs) (m := m) (w := w) h)
+    exact preach_complete hg (hashOK_lt hc hh) hpr (Proofs.HeurBands.rankOf_bands hok.2 _ _) hn
+  q_mem := fun ps b hs m w _ h => by
+    rw [hc.qMoves] at h
+    exact genNoisy_sub_gen (qMoves_mem (ps := ps) (b := b) (hs := hs) (m := m) (w := w) h)
   gen_ne_zero := fun _ _ hg hm => gen_ne_zero hg hm
   ok_store := fun ps b d ply m v bd hok hg hm => by
+    rw [hc.ttStore]
     refine ttStore_ok hok b d ply ?_ v bd
     rcases hm with h | h
     · rw [h]; decide
     · exact Props.C05.gen_lt hg h
-  ok_failHigh := fun _ d b p hs hok => failHigh_ok hok d b p hs
-  ok_nextGen := fun _ hok => nextGen_ok hok
+  ok_failHigh := fun _ d b p hs hok => by rw [hc.failHigh]; exact failHigh_ok hok d b p hs
+  ok_nextGen := fun _ hok => by rw [hc.nextGen]; exact nextGen_ok hok
+
+omit hc
+
+theorem real_laws (K : Keys) (cs : Eval.CoeffSet Int) : Laws (realCompWith K cs) RealGood :=
+  laws_of_isReal (isReal_realCompWith K cs)
 
 /-- … in particular for THE real search (shipped coefficients). -/
-theorem realComp_laws : Laws (realComp K) RealGood := real_laws K Eval.shipped
+theorem realComp_laws (K : Keys) : Laws (realComp K) RealGood := real_laws K Eval.shipped
 
 /-- the invariant holds of a new `Search` object and after `Clear()`. -/
 theorem newEngine_ok (buckets : Nat) : PsInv.ok (newEngine buckets).ps := new_ok buckets
